@@ -191,6 +191,8 @@ type Obligation struct {
 	Model   map[string]string
 	Detail  string
 	Vacuity bool // expected sat (reachability check)
+	PrePC      *Term // vacuity after a modular call: the path condition before the call ...
+	PreNAssume int   // ... and the number of assumptions in force there (failed only if that state was reachable)
 }
 
 // ---------------------------------------------------------------- executor
